@@ -55,11 +55,12 @@ def cmp_fn(ctx, construct, rel, qual, spec_src, opts=None, holes=None, name=None
         ctx.notes['functions compared whole with a restatement'].append('%s::%s' % (rel, qual))
 
     def go():
-        exp = ctx.spec_term(spec_src, opts=opts, name=name, **kw)
         try:
             got = ctx.fn_term(rel, qual, opts=opts, **kw)
         except T.Refused as e:
+            ctx.spec_term(spec_src, opts=opts, name=name, **kw)       # (the restatement itself must be readable)
             return ctx.bad(construct, 'cannot be shown to be the specified computation: %s' % e, where)
+        exp = ctx.spec_term(spec_src, opts=opts, name=name, **kw)
         if got != exp and 'call_hook' not in kw:
             # helpers extracted from the function (calls the specification never makes): inline the simple pure ones first
             g0 = _inline_new_helpers(ctx, rel, qual, got, exp, opts, kw)
